@@ -18,6 +18,17 @@ Inductive sop := SWrite (st vs : list Z) | SCommit.
 Definition sop_wop (o : sop) : wop :=
   match o with SWrite st vs => WWrite [(1, st); (2, vs)] | SCommit => WCommit end.
 
+Lemma read_chan_one d k t :
+  read_chan d k t = let '(P, D, var) := chan_layout d k in read_one P D var t.
+Proof. unfold read_chan, read_one. destruct (chan_layout d k) as [[P D] var]. reflexivity. Qed.
+
+Lemma chan_layout_idx D1 D2 kind t1 t2 :
+  chan_layout [Chan 1 0 0 D1 t1; Chan 2 1 kind D2 t2] 1 = (D1, D1, false).
+Proof. reflexivity. Qed.
+Lemma chan_layout_dat D1 D2 kind t1 t2 :
+  chan_layout [Chan 1 0 0 D1 t1; Chan 2 1 kind D2 t2] 2 = (D1, D2, is_var kind).
+Proof. reflexivity. Qed.
+
 Section Session.
 Variable cap kind start : Z.
 Hypothesis Hstart : 0 <= start.
@@ -415,17 +426,15 @@ Proof.
     destruct (committed_layout Sc Sc C1 ISc FSc eq_refl) as (L1 & A1).
     destruct (committed_layout Sc Vc C1 ISc FSc (eq_sym C2)) as (L2 & A2).
     cbv zeta in L1, A1, L2, A2. rewrite <- C3 in L1, A1, L2, A2.
-    split; [exact Hcodes|]. intros t Ht H0. rewrite Hdb. split.
-    + rewrite <- A1. unfold read_chan, chan_layout. cbn -[read_loop u_seek_first].
-      apply (read_one_exact _ _ _ L1 t Ht H0).
-    + rewrite <- A2. unfold read_chan, chan_layout. cbn -[read_loop u_seek_first].
-      apply (read_one_exact _ _ _ L2 t Ht H0).
+    split; [exact Hcodes|]. intros t Ht H0. rewrite Hdb. rewrite !read_chan_one, chan_layout_idx, chan_layout_dat.
+    cbn [doms1 doms2]. split.
+    + rewrite <- A1. apply (read_one_exact _ _ _ L1 t Ht H0).
+    + rewrite <- A2. apply (read_one_exact _ _ _ L2 t Ht H0).
   - destruct empty_layout as (L0 & A0).
-    split; [exact Hcodes|]. intros t Ht H0. rewrite Hdb. cbn [combine]. split.
-    + unfold read_chan, chan_layout. cbn -[read_loop u_seek_first].
-      change (read_spec [] t) with (read_spec (layout_assoc [] []) t). apply (read_one_exact _ _ _ L0 t Ht H0).
-    + unfold read_chan, chan_layout. cbn -[read_loop u_seek_first].
-      change (read_spec [] t) with (read_spec (layout_assoc [] []) t). apply (read_one_exact _ _ _ L0 t Ht H0).
+    split; [exact Hcodes|]. intros t Ht H0. rewrite Hdb. rewrite !read_chan_one, chan_layout_idx, chan_layout_dat.
+    cbn [doms1 doms2 combine]. split.
+    + change (read_spec [] t) with (read_spec (layout_assoc [] []) t). apply (read_one_exact _ _ _ L0 t Ht H0).
+    + change (read_spec [] t) with (read_spec (layout_assoc [] []) t). apply (read_one_exact _ _ _ L0 t Ht H0).
 Qed.
 
 Opaque last app zlen.
